@@ -667,7 +667,14 @@ def run_unit(spec, tier, repo_root=None, variant=None, keep=None, extra_defs=())
         res['discharged'] = sum(1 for o in obligations if o[2] == 'SUCCESS')
         res['failed'] = [dict(name=o[0], description=o[1], status=o[2], clause=o[4],
                               function=o[3].get('function'), line=o[3].get('line'), file=os.path.basename(o[3].get('file', '')))
-                         for o in obligations if o[2] != 'SUCCESS']
+                         for o in obligations if o[2] == 'FAILURE']
+        # any other non-SUCCESS status (ERROR: solver out of memory / back-end failure, UNKNOWN) is NOT a refutation
+        errs = [o for o in obligations if o[2] not in ('SUCCESS', 'FAILURE')]
+        if errs:
+            res['reason'] = 'solver gave no answer for %d obligations (status %s, e.g. %s): undecided' % (
+                len(errs), sorted(set(o[2] for o in errs)), errs[0][0])
+            res['failed'] = []
+            return res
         res['samples'] = [dict(name=o[0], description=o[1][:160], status=o[2]) for o in obligations
                           if re.search(r'postcondition|loop_invariant|assigns', o[0]) or 'loop invariant' in o[1]][:6]
         kinds = {}
